@@ -34,6 +34,7 @@ const (
 	KProcExit3
 	KClose0
 	KClose7
+	KDeepHost // succeeding: DeepFrames nested frames, then a host call that garbage-collects, then unwinds
 	NKinds
 )
 
@@ -43,7 +44,7 @@ var kindNames = [NKinds]string{
 	"ok", "deepok", "unreachable", "div0", "overflow", "invalidconv", "oobstore", "oobfill", "tableoob", "cinull", "cimismatch", "cioob",
 	"unaligned", "rec0", "rec1", "rec64", "rec1024",
 	"panic-error", "panic-string", "panic-runtime", "panic-customerr", "panic-value",
-	"procexit0", "procexit3", "close0", "close7",
+	"procexit0", "procexit3", "close0", "close7", "deephost",
 }
 
 // DeepFrames is below the interpreter's frame ceiling (2000) and far above the compiler's initial 10 KiB stack.
@@ -75,6 +76,7 @@ const (
 	impReenter
 	impProcExit
 	impBDirect
+	impGC
 	nImportsA
 )
 
@@ -104,6 +106,7 @@ func buildGuest(isA bool) []byte {
 		m.ImportFunc(hostModName, "reenter", []byte{i32, i32, i32, i32, i32}, []byte{i32})
 		m.ImportFunc(wasiModName, "proc_exit", []byte{i32}, nil)
 		m.ImportFunc("B", "direct", []byte{i32, i32}, []byte{i32})
+		m.ImportFunc(hostModName, "gc", nil, []byte{i32})
 	}
 	m.Mem = &wb.Limits{Min: 1, Max: 1, HasMax: true}
 	g := m.AddGlobal(i32, true, wb.CI32(0))
@@ -148,6 +151,14 @@ func buildGuest(isA bool) []byte {
 	m.AddFunc([]byte{i32}, []byte{i32}, nil, (&wb.Asm{}).LocalGet(0).Op(0x45).If(wb.I32).I32Const(0).Else().
 		LocalGet(0).I32Const(1).Op(0x6b).Call(down).I32Const(1).Op(0x6a).End().B)
 	m.FuncNames[down] = "down"
+	// downh(n) -> i32 = n==0 ? gc() : downh(n-1)+1 : the host runs a garbage collection at the deepest point
+	var downh uint32
+	if isA {
+		downh = m.NumImportedFuncs() + uint32(len(m.Funcs))
+		m.AddFunc([]byte{i32}, []byte{i32}, nil, (&wb.Asm{}).LocalGet(0).Op(0x45).If(wb.I32).Call(impGC).Else().
+			LocalGet(0).I32Const(1).Op(0x6b).Call(downh).I32Const(1).Op(0x6a).End().B)
+		m.FuncNames[downh] = "downh"
+	}
 	// a function of another type for the signature-mismatched call_indirect
 	other := m.AddFunc(nil, []byte{wb.I64}, nil, (&wb.Asm{}).I64Const(7).B)
 	m.FuncNames[other] = "othertype"
@@ -161,6 +172,8 @@ func buildGuest(isA bool) []byte {
 		case KOk:
 		case KDeepOk:
 			a.I32Const(CellAux).I32Const(DeepFrames).Call(down).Mem(0x36, 2, 0)
+		case KDeepHost:
+			a.I32Const(CellAux).I32Const(DeepFrames).Call(downh).Mem(0x36, 2, 0)
 		case KUnreachable:
 			a.Unreachable()
 		case KDivZero:
